@@ -129,6 +129,14 @@ func corruptionSweep(r *run.Runner, fn0 func(w *run.Worker, src string)) map[str
 				emit(t) // transposition
 			}
 		}
+		// duplication of a group of 2-4 adjacent tokens (a clause written twice)
+		for g := 2; g <= 4; g++ {
+			for i := 0; i+g <= n; i++ {
+				t := append([]string{}, lex[:i+g]...)
+				t = append(t, lex[i:i+g]...)
+				emit(append(t, lex[i+g:]...))
+			}
+		}
 		for i := 0; i < n; i++ {
 			// replacement of a token by a malformed or foreign lexeme
 			for _, x := range []string{"1e-", "1e", "0x", "1.5.", "'unterminated", "`q", "!", "`q r`", "$left", "1", "by", "("} {
